@@ -67,7 +67,7 @@ class ExportBoom(Exception):
 
 
 DICTCLS = {"dict": dict, "OrderedDict": collections.OrderedDict, "MyDict": MyDict}
-NODECLS = {"AnyNode": AnyNode, "Node": Node, "AttrNM": AttrNM, "LenAnyNode": LenAnyNode, "EqAnyNode": EqAnyNode}
+NODECLS = {"VetoAny": None, "AnyNode": AnyNode, "Node": Node, "AttrNM": AttrNM, "LenAnyNode": LenAnyNode, "EqAnyNode": EqAnyNode}
 
 
 def attriter_of(name, dictcls=dict):
@@ -119,6 +119,40 @@ def childiter_of(name):
     raise ValueError(name)
 
 
+VETO = [False]
+
+
+class VetoAny(AnyNode):
+    """An AnyNode subclass whose attach hook can be made to refuse for a while (a tree that is frozen temporarily)."""
+
+    def _pre_attach(self, parent):
+        if VETO[0]:
+            raise ExportBoom("attaching is refused at the moment")
+
+
+NODECLS["VetoAny"] = VetoAny
+
+
+def scar(nodes, index):
+    """A tree with a past: one children assignment was refused, putting the old children back was refused as well (the hook
+    kept refusing), and the application then repaired the tree by hand. Nothing of that is data of the nodes."""
+    node = nodes[index % len(nodes)]
+    kids = list(node.children)
+    if not kids:
+        return False
+    VETO[0] = True
+    try:
+        node.children = list(reversed(kids))
+    except ExportBoom:
+        pass
+    finally:
+        VETO[0] = False
+    for kid in kids:
+        kid.parent = None
+    node.children = kids
+    return True
+
+
 def build(case):
     cls = NODECLS[case["cls"]]
     parents = shapes.shape_to_parents(forest.to_tuple(case["shape"]))
@@ -131,6 +165,9 @@ def build(case):
         if parent is not None:
             node.parent = nodes[parent]
         nodes.append(node)
+    if case["cls"] == "VetoAny":
+        for index in {0, case.get("start", 0), case.get("scar", 0)}:
+            scar(nodes, index)
     return nodes
 
 
@@ -512,7 +549,7 @@ def _enum_cases(max_nodes, index, count):
                 for attriter in (None, "sorted", "keyfilter", "dictmemo", "dictconst"):
                     for childiter in ("list", "reversed", "filter", "tail", "iter", "revgen", "memolist", "lazyodd", "filterobj"):
                         for dictcls in ("dict", "OrderedDict", "MyDict"):
-                            yield {"kind": "tree", "cls": ["AnyNode", "Node", "AttrNM", "LenAnyNode", "EqAnyNode"][k % 5], "shape": forest.to_list(shape), "attrs": [pattern[(i + k) % 3] for i in range(size)], "start": start, "attriter": attriter, "childiter": childiter, "dictcls": dictcls, "maxlevel": maxlevel}
+                            yield {"kind": "tree", "cls": ["AnyNode", "Node", "AttrNM", "LenAnyNode", "EqAnyNode", "VetoAny"][k % 6], "shape": forest.to_list(shape), "attrs": [pattern[(i + k) % 3] for i in range(size)], "start": start, "attriter": attriter, "childiter": childiter, "dictcls": dictcls, "maxlevel": maxlevel}
 
 
 def plan(tier, seed):
